@@ -125,11 +125,13 @@ pub fn generate(seed: u64, thorough: bool, sink: &mut Sink) -> Vec<String> {
   let n = if thorough { 20000 } else { 1500 };
   let prose_kinds = ["title", "section", "para", "list", "quote", "break", "table", "code", "comment",
     "code-bare", "code-bare-def", "code-tilde", "code-tilde-lang", "code-ebnf", "code-shell"];
-  let ns_names = ["alpha", "beta", "gamma"];
+  // names of code blocks; several begin with letters of the tag prefix `mech:` or differ only by such a prefix
+  let all_names = ["alpha", "beta", "gamma", "calc", "alc", "c", "me", "h2", "ex", "x"];
   for _ in 0..n {
     let len = 3 + rng.below(if thorough { 14 } else { 9 }) as usize;
     let mut main_vars: Vec<String> = vec![]; let mut main_muts: Vec<String> = vec![];
     let mut ns_vars: Vec<(Vec<String>, Vec<String>)> = vec![(vec![], vec![]), (vec![], vec![]), (vec![], vec![])];
+    let ns_names: Vec<&str> = { let mut pool = all_names.to_vec(); let mut v = vec![]; for _ in 0..3 { let i = rng.below(pool.len() as u64) as usize; v.push(pool.remove(i)); } v };
     let mut els: Vec<String> = vec![];
     let errors = rng.below(6);   // 0: an error in a named fence, 1: an error in the main program, else none
     let err_at = rng.below(len as u64) as usize;
